@@ -28,6 +28,9 @@ func init() {
 	reg1("C14Seq", SetupC14Seq, HarnessC14Seq)
 	reg1("C14AB", SetupC14AB, HarnessC14AB)
 	reg1("C14Caps", SetupC14Caps, HarnessC14Caps)
+	reg1("C20Log", SetupC20Log, HarnessC20Log)
+	reg1("C15Panic", SetupC15Panic, HarnessC15Panic)
+	reg1("C15Redact", SetupC15Redact, HarnessC15Redact)
 	reg1("C16Alloc", SetupC16Alloc, HarnessC16Alloc)
 	reg1("C09Host", SetupC09Host, HarnessC09Host)
 	reg1("C10Parse", SetupC10Parse, HarnessC10Parse)
